@@ -106,6 +106,25 @@ def query_harness(name, n, perm_mode, top_kinds, edits):
         want = [j for j in members if not succ[j] and not j.forever]
         if set(got) != set(want):
             fail("C17: exit_jobs() = %s, expected %s (forever ones left out by default)" % (got, want), info)
+        if edit == "none" and len(members) > 1 and api.flag("then_trim"):
+            # the reverse links are up to date (they have just been computed); the scheduler is trimmed through
+            # keep_only(), which sanitizes; the documented shortcut compute_backlinks=False must still be right
+            victim = members[api.choice("trim_which", len(members))]
+            rest = [j for j in members if j is not victim]
+            sched.keep_only(rest)
+            rset = set(rest)
+            succ2 = {j: set(k for k in rest if j in k.required) for j in rest}
+            info["then"] = "keep_only(all but %s)" % victim
+            got = list(sched.exit_jobs(discard_forever=False, compute_backlinks=False))
+            want = [j for j in rest if not succ2[j]]
+            if set(got) != set(want) or len(got) != len(set(got)):
+                fail("C17: after keep_only, exit_jobs(discard_forever=False, compute_backlinks=False) = %s, expected %s"
+                     % (got, want), info)
+            for j in rest:
+                got = list(sched.successors(j, compute_backlinks=False))
+                if set(got) != succ2[j]:
+                    fail("C17: after keep_only, successors(%s, compute_backlinks=False) = %s, expected %s"
+                         % (j, got, sorted(map(str, succ2[j]))), info)
         api.note("c17_queries", nq)
         api.sample(info)
     return Harness(name, fn, bounds={"nodes": n, "iteration_orders": perm_mode, "edits": edits, "top": top_kinds},
